@@ -479,8 +479,24 @@ def check_assembly(run, pkg, attrs):
     if fr is not None:
         w = fr.data["value"]
         okw = eqv(w, ("call", "numpy.where", (("cmp", ">", evals, C(0)), ("call", "numpy.sqrt", (evals,), ()), evals), ()))
+        wit_w = "frequency is not the square root of the eigenvalue"
+        if okw is not True:
+            # evaluated on spectra of very different magnitude (the property holds in any unit system): every positive eigenvalue
+            # must come out as its square root, whatever its size
+            import numpy as np
+            from ..concrete import ev as cev
+            try:
+                for lamv in (np.array([4.0, 0.25, 9.0]), np.array([4e-10, 2.5e-11, 9e-12]), np.array([1.6e-19, 4e-20, 1e-18]), np.array([4e12, 9e10, 1.0])):
+                    with np.errstate(all="ignore"):
+                        got = np.asarray(cev(w, {evals: lamv}), dtype=float)
+                    if got.shape != lamv.shape or not np.allclose(got, np.sqrt(lamv), rtol=1e-12, atol=0.0):
+                        okw = False
+                        wit_w = f"eigenvalues {lamv.tolist()}: reported frequencies {got.tolist()}, square roots {np.sqrt(lamv).tolist()}"
+                        break
+            except Exception:  # noqa
+                pass
         run.ob("R-ALG", fq, "frequencies", okw, "omega = sqrt(lambda) for lambda > 0 (non-positive eigenvalues reported as they are)", show(w)[:100],
-               witness=None if okw else "frequency is not the square root of the eigenvalue", loc=loc_of(it, fr), sound=True)
+               witness=None if okw else wit_w, loc=loc_of(it, fr), sound=True)
 
 
 def mass_factor_fallback(run, it, fi, fq, ex, SNAP, PT, NP) -> bool:
